@@ -91,10 +91,27 @@ func (a *A) slotCtorArgs(fn *ssa.Function, args []*Term) (*Term, *Term) {
 			return nil, nil
 		}
 		callee := call.Call.StaticCallee()
-		if callee == nil || callee.Name() != "NewTimeSlot" || callee.Pkg == nil || callee.Pkg.Pkg.Path() != typesPkg {
-			return nil, nil
+		var s, e *Term
+		if callee != nil && callee != fn && a.fnInModule(callee) && callee.Pkg == fn.Pkg && callee.Name() != "NewTimeSlot" && len(args) < 8 {
+			// the slot is built by another constructor of the package (createSlot delegating to
+			// createSlotFromStart): its start/end in terms of this function's values
+			var sub []*Term
+			for _, av := range call.Call.Args {
+				sub = append(sub, tm.of(av))
+			}
+			for len(sub) < 8 {
+				sub = append(sub, nil) // depth marker: at most one level of delegation
+			}
+			s, e = a.slotCtorArgs(callee, sub)
+			if s == nil {
+				return nil, nil
+			}
+		} else {
+			if callee == nil || callee.Name() != "NewTimeSlot" || callee.Pkg == nil || callee.Pkg.Pkg.Path() != typesPkg {
+				return nil, nil
+			}
+			s, e = tm.of(call.Call.Args[0]), tm.of(call.Call.Args[1])
 		}
-		s, e := tm.of(call.Call.Args[0]), tm.of(call.Call.Args[1])
 		if n > 0 && (s.String() != st.String() || e.String() != en.String()) {
 			return nil, nil
 		}
@@ -660,6 +677,29 @@ func (a *A) ruleLatePolicy(W *types.Named, add *ssa.Function) {
 			if !returnReachableAvoiding(add, ret, insert) {
 				continue
 			}
+			// path form: the decision may be carried in a boolean (`if !sw.admit(row) { return }`): with a
+			// usable timestamp that is neither late nor beyond the far-future ceiling, can the return be
+			// reached without the row having been stored?
+			isIns := map[ssa.Instruction]bool{}
+			for _, x := range insert {
+				isIns[x] = true
+			}
+			reach := reachOnSomePathAvoiding(add, ret, func(v ssa.Value) Tri {
+				if v == tsOk {
+					return T
+				}
+				if c, ok := v.(*ssa.Call); ok && c.Call.StaticCallee() != nil {
+					f := c.Call.StaticCallee()
+					if isLate(f) {
+						return F
+					}
+					if f.Name() == "IsFarFuture" && f.Signature.Recv() != nil && isNamedType(f.Signature.Recv().Type(), wm.Obj().Pkg().Path(), "Watermark") {
+						return F
+					}
+				}
+				return U
+			}, func(in ssa.Instruction) bool { return isIns[in] })
+			okLate = !reach
 		}
 		a.Check(okLate, fname(add)+"#return-only-late", ret.Pos(),
 			"this return without storing the row is reached only for a late row (IsEventTimeLate true) or a row without timestamp",
